@@ -163,7 +163,31 @@ func c25Collect(p *an.Prog, r *an.R) {
 					return false
 				}
 				se, ok := ast.Unparen(c.Fun).(*ast.SelectorExpr)
-				return ok && se.Sel.Name == "Send" && an.UsesObj(info, se.X, sender)
+				if !ok || se.Sel.Name != "Send" {
+					return false
+				}
+				if an.UsesObj(info, se.X, sender) {
+					return true
+				}
+				// `target := sender; if collecting { target = collectSender }; target.Send(ev)`: a local that may hold the sender
+				id, ok := ast.Unparen(se.X).(*ast.Ident)
+				if !ok {
+					return false
+				}
+				alias := false
+				ast.Inspect(lit.Body, func(k ast.Node) bool {
+					as, ok := k.(*ast.AssignStmt)
+					if !ok || len(as.Lhs) != len(as.Rhs) {
+						return true
+					}
+					for i, lh := range as.Lhs {
+						if isIdentOf(info, lh, info.ObjectOf(id)) && an.UsesObj(info, as.Rhs[i], sender) {
+							alias = true
+						}
+					}
+					return true
+				})
+				return alias
 			})
 			if !sends {
 				continue
